@@ -1,8 +1,9 @@
 #!/bin/bash
 # confirm every seeded change under /tmp/mut in parallel (3 at a time)
 cd "$(dirname "$0")/.."
+mkdir -p ${MUTROOT:-/tmp/mut2}/confirm
 for i in $(seq -w 1 20); do for n in 1 2; do
-  [ -f /tmp/mut/C$i/out/$n/patch.diff ] || continue
-  ( python3 tools/confirmseed.py C$i $n > /tmp/mut/confirm/C$i-$n.json 2>/tmp/mut/confirm/C$i-$n.err ) &
+  [ -f ${MUTROOT:-/tmp/mut2}/C$i/out/$n/patch.diff ] || continue
+  ( python3 tools/confirmseed.py C$i $n > ${MUTROOT:-/tmp/mut2}/confirm/C$i-$n.json 2>${MUTROOT:-/tmp/mut2}/confirm/C$i-$n.err ) &
   while [ $(jobs -r | wc -l) -ge 3 ]; do sleep 2; done
 done; done; wait
